@@ -44,6 +44,9 @@ pub struct BEntry {
     pub gap_before: u32,
     /// central CRC recorded (None = true CRC); AE-2 records 0
     pub crc_lie: Option<u32>,
+    /// name recorded in the central header when it differs from the local one
+    #[serde(default)]
+    pub central_name: Option<Hex>,
 }
 
 impl Default for BEntry {
@@ -70,6 +73,7 @@ impl Default for BEntry {
             enc: None,
             gap_before: 0,
             crc_lie: None,
+            central_name: None,
         }
     }
 }
@@ -345,14 +349,15 @@ pub fn build(l: &Layout) -> Built {
         img.extend_from_slice(&info.crc_recorded.to_le_bytes());
         img.extend_from_slice(&(if e.z64_central & 2 != 0 { 0xFFFF_FFFF } else { info.csize as u32 }).to_le_bytes());
         img.extend_from_slice(&(if e.z64_central & 1 != 0 { 0xFFFF_FFFF } else { info.usize as u32 }).to_le_bytes());
-        img.extend_from_slice(&(e.name.0.len() as u16).to_le_bytes());
+        let cname = e.central_name.as_ref().unwrap_or(&e.name);
+        img.extend_from_slice(&(cname.0.len() as u16).to_le_bytes());
         img.extend_from_slice(&(info.central_extra.len() as u16).to_le_bytes());
         img.extend_from_slice(&(e.comment.0.len() as u16).to_le_bytes());
         img.extend_from_slice(&(if e.z64_central & 8 != 0 { 0xFFFFu16 } else { 0 }).to_le_bytes());
         img.extend_from_slice(&e.iattr.to_le_bytes());
         img.extend_from_slice(&e.eattr.to_le_bytes());
         img.extend_from_slice(&(if e.z64_central & 4 != 0 { 0xFFFF_FFFF } else { rel_off as u32 }).to_le_bytes());
-        img.extend_from_slice(&e.name.0);
+        img.extend_from_slice(&cname.0);
         img.extend_from_slice(&info.central_extra);
         img.extend_from_slice(&e.comment.0);
         out_infos.push(info);
